@@ -4,13 +4,12 @@
 use crate::chain::*;
 use crate::miner::*;
 use crate::minercheck::*;
+use crate::penalties::*;
 use crate::util::*;
 use fil_actor_power::State as PowerState;
-use fil_actors_runtime::STORAGE_POWER_ACTOR_ADDR;
 use fvm_shared::ActorID;
 use fvm_shared::bigint::BigInt;
 use fvm_shared::econ::TokenAmount;
-use fvm_shared::error::ExitCode;
 use mcvm::{Inv, Store, Vm};
 use mcx::{Key, Known, Scenario, Step};
 use num_traits::Zero;
@@ -36,6 +35,13 @@ pub enum Act {
     Onboard { number: u64, dl_off: u64 },
     /// declare faults with a wrong partition index (a batch entry that must not corrupt anything)
     DeclareFaultsWrongPartition(Vec<u64>),
+    /// a stranger reports a consensus fault committed by the miner at the previous epoch
+    ReportFault,
+    RepayDebt,
+    /// owner withdraws everything available
+    Withdraw,
+    /// block reward carrying a gas penalty
+    AwardPenalty,
 }
 
 #[derive(Clone, Debug, Serialize, PartialEq, Eq)]
@@ -66,6 +72,7 @@ pub struct Oracles {
     pub c03: bool,
     pub c04: bool,
     pub c05: bool,
+    pub c15: bool,
 }
 
 pub struct LifeCfg {
@@ -77,6 +84,9 @@ pub struct LifeCfg {
     pub sector_sets: Vec<Vec<u64>>,
     pub known_open: BTreeSet<String>,
     pub property: &'static str,
+    /// Some(margin): the subject miner owns nothing but its vesting creation deposit + margin
+    pub poor: Option<TokenAmount>,
+    pub money_devs: bool,
 }
 
 pub struct W {
@@ -322,6 +332,68 @@ impl Life {
         (r.err().map(|e| format!("{what}: {e}")), known)
     }
 
+    /// C15 identity for one executed message / tick.
+    fn pen(&self, what: &str, pre: &MinerView, vm: &Vm, inv: &Inv, reporter: Option<ActorID>, charged: &TokenAmount) -> Option<String> {
+        if !self.cfg.oracles.c15 {
+            return None;
+        }
+        let post = view(vm, pre.id)?;
+        check_identity(what, pre, &post, inv, reporter, charged).err()
+    }
+
+    /// What the end-of-epoch tick must charge the miner (C15): continued-fault fee for power that
+    /// was already faulty, the (capped) daily fee of the deadline that ended, and the termination
+    /// fee of every early termination processed.
+    fn tick_charge(&self, m: &LifeM, pre: &MinerView, post: &MinerView, tick: &Inv, deadline_end: Option<(u64, i64)>, policy: &fil_actors_runtime::runtime::Policy) -> Result<TokenAmount, String> {
+        let Some(est) = est_from_tick(tick, pre.id) else { return Ok(TokenAmount::zero()) };
+        let mut total = TokenAmount::zero();
+        let mut added = BTreeMap::new();
+        if let Some((dl, last)) = deadline_end {
+            // continued fault fee: sectors of this deadline that were faulty before the deadline ended
+            let mut qa = BigInt::zero();
+            let d = &pre.dls[dl as usize];
+            for p in &d.parts {
+                for s in p.sectors.difference(&p.terminated) {
+                    if m.sectors.get(s).map(|x| x.faulty).unwrap_or(false) {
+                        qa += pre.sector_power(&pre.sectors[s]).1;
+                    }
+                }
+            }
+            if !qa.is_zero() {
+                total += ff(&est, &qa);
+            }
+            // daily fee of the deadline, on what is still live after this deadline end
+            let da = &post.dls[dl as usize];
+            let mut fee = TokenAmount::zero();
+            let mut live_qa = BigInt::zero();
+            for p in &da.parts {
+                for s in p.sectors.difference(&p.terminated) {
+                    fee += &post.sectors[s].daily_fee;
+                    live_qa += post.sector_power(&post.sectors[s]).1;
+                }
+            }
+            if fee.is_positive() {
+                let day_reward = fil_actor_miner::expected_reward_for_power(&est.reward, &est.qa, &live_qa, EPOCHS_IN_DAY);
+                let cap = day_reward.div_floor(policy.daily_fee_block_reward_cap_denom);
+                total += std::cmp::min(cap, fee);
+            }
+            // sectors that timed out as faulty at this deadline end enter the termination queue now
+            let quant = pre.st.quant_spec_for_deadline(policy, dl);
+            let after_sets = Self::live_sets(post);
+            for p in &d.parts {
+                for s in p.sectors.difference(&p.terminated) {
+                    let gone_now = after_sets.get(s).map(|x| x.3).unwrap_or(true);
+                    if gone_now && quant.quantize_up(pre.sectors[s].expiration) > last {
+                        added.insert(*s, last);
+                    }
+                }
+            }
+        }
+        let (fees, _) = term_fees_processed(pre, post, &added, &est)?;
+        total += fees;
+        Ok(total)
+    }
+
     /// group sector numbers by their (deadline, partition)
     fn decls(v: &MinerView, set: &[u64]) -> Vec<(u64, u64, Vec<u64>)> {
         let mut g: BTreeMap<(u64, u64), Vec<u64>> = BTreeMap::new();
@@ -474,7 +546,7 @@ impl Scenario for Life {
 
     fn worker(&self, store: &Store) -> W {
         let vm = Vm::genesis(store.clone(), small_policy());
-        let cast = setup(&vm, true);
+        let cast = setup_with(&vm, true, self.cfg.poor.clone());
         let mut deposits = BTreeMap::new();
         deposits.insert(cast.m, cast.dep_m.clone());
         deposits.insert(cast.bm, cast.dep_bm.clone());
@@ -513,6 +585,10 @@ impl Scenario for Life {
             Act::Compact(_) => "compact".into(),
             Act::Onboard { .. } => "onboard".into(),
             Act::DeclareFaultsWrongPartition(_) => "declare-faults(wrong partition)".into(),
+            Act::ReportFault => "report-consensus-fault".into(),
+            Act::RepayDebt => "repay-debt".into(),
+            Act::Withdraw => "withdraw".into(),
+            Act::AwardPenalty => "award-with-penalty".into(),
         }
     }
 
@@ -553,10 +629,16 @@ impl Scenario for Life {
         v.push(Act::Onboard { number: 4, dl_off: 0 });
         v.push(Act::Onboard { number: 4, dl_off: 1 });
         v.push(Act::Onboard { number: 1, dl_off: 0 }); // re-use of a number: must be rejected
+        if self.cfg.money_devs {
+            v.push(Act::ReportFault);
+            v.push(Act::RepayDebt);
+            v.push(Act::Withdraw);
+            v.push(Act::AwardPenalty);
+        }
         v
     }
 
-    fn step(&self, w: &W, s: &VS<LifeM>, a: &Act, _faults: &[usize]) -> Step<VS<LifeM>> {
+    fn step(&self, w: &W, s: &VS<LifeM>, a: &Act, faults: &[usize]) -> Step<VS<LifeM>> {
         let vm = &w.vm;
         let c = &w.cast;
         vm.restore(&s.snap);
@@ -582,13 +664,18 @@ impl Scenario for Life {
             }
         };
         let mut accepted_dev = false;
+        let mut sites: Vec<usize> = vec![];
         match a {
             Act::Advance => {
                 if di.open == now && m.suppressed != Some(now) {
                     let parts = Self::default_post_parts(&before);
                     for chunk in parts.chunks(3) {
+                        let pre_msg = view(vm, c.m).unwrap();
                         let r = submit_post(vm, c.w, c.m, di.index, chunk, false);
                         if let Err(e) = all_ok(&r) {
+                            bad!(e);
+                        }
+                        if let Some(e) = self.pen("default PoSt", &pre_msg, vm, &r, None, &TokenAmount::zero()) {
                             bad!(e);
                         }
                         if r.ok() {
@@ -612,7 +699,18 @@ impl Scenario for Life {
                     bad!(e);
                 }
                 let post = view(vm, c.m).unwrap();
-                if now == di.last() && pre.st.deadline_cron_active && di.period_started() {
+                let is_end = now == di.last() && pre.st.deadline_cron_active && di.period_started();
+                if self.cfg.oracles.c15 {
+                    match self.tick_charge(&m, &pre, &post, &r, if is_end { Some((di.index, di.last())) } else { None }, &vm.policy) {
+                        Ok(ch) => {
+                            if let Err(e) = check_identity(&format!("cron tick at epoch {now}"), &pre, &post, &r, None, &ch) {
+                                bad!(e);
+                            }
+                        }
+                        Err(e) => bad!(e),
+                    }
+                }
+                if is_end {
                     if let Err(e) = self.model_deadline_end(&mut m, &pre, &post, di.index, di.last(), &vm.policy) {
                         bad!(e);
                     }
@@ -638,6 +736,9 @@ impl Scenario for Life {
                 if let Err(e) = all_ok(&r) {
                     bad!(e);
                 }
+                if let Some(e) = self.pen("PoSt", &before, vm, &r, None, &TokenAmount::zero()) {
+                    bad!(e);
+                }
                 if r.ok() {
                     Self::model_post(&mut m, &before, di.index, &parts, now);
                     if di.open == now {
@@ -658,6 +759,9 @@ impl Scenario for Life {
                 }
                 let r = declare_faults(vm, c.w, c.m, &decls);
                 if let Err(e) = all_ok(&r) {
+                    bad!(e);
+                }
+                if let Some(e) = self.pen("fault declaration", &before, vm, &r, None, &TokenAmount::zero()) {
                     bad!(e);
                 }
                 if r.ok() && !decls.is_empty() {
@@ -689,6 +793,12 @@ impl Scenario for Life {
                 if let Err(e) = all_ok(&r) {
                     bad!(e);
                 }
+                if let Some(e) = self.pen("recovery declaration", &before, vm, &r, None, &TokenAmount::zero()) {
+                    bad!(e);
+                }
+                if r.ok() && before.st.fee_debt.is_positive() && view(vm, c.m).map(|v| v.st.fee_debt.is_positive()).unwrap_or(false) {
+                    bad!("recovery declaration accepted while fee debt stays unpaid".to_string());
+                }
                 if r.ok() && !decls.is_empty() {
                     for s in set {
                         if let Some(sm) = m.sectors.get_mut(s)
@@ -706,9 +816,29 @@ impl Scenario for Life {
             }
             Act::Terminate(set) => {
                 let decls = Self::decls(&before, set);
+                let est = est_now(vm);
                 let r = terminate(vm, c.w, c.m, &decls);
                 if let Err(e) = all_ok(&r) {
                     bad!(e);
+                }
+                if self.cfg.oracles.c15 {
+                    let post = view(vm, c.m).unwrap();
+                    let mut added = BTreeMap::new();
+                    if r.ok() {
+                        for (_, _, ss) in &decls {
+                            for s in ss {
+                                added.insert(*s, now);
+                            }
+                        }
+                    }
+                    match term_fees_processed(&before, &post, &added, &est) {
+                        Ok((fees, _)) => {
+                            if let Err(e) = check_identity("termination", &before, &post, &r, None, &fees) {
+                                bad!(e);
+                            }
+                        }
+                        Err(e) => bad!(e),
+                    }
                 }
                 if r.ok() && !decls.is_empty() {
                     for s in set {
@@ -725,8 +855,17 @@ impl Scenario for Life {
                 }
             }
             Act::Dispute(d) => {
+                let charge = if self.cfg.oracles.c15 { dispute_charge(vm, c.m, *d, 0, &est_now(vm)) } else { None };
+                vm.set_fault_plan(faults);
                 let r = dispute(vm, c.z, c.m, *d, 0);
                 if let Err(e) = all_ok(&r) {
+                    bad!(e);
+                }
+                if faults.is_empty() {
+                    sites = r.flat().iter().filter(|i| i.from == c.m && i.to_id() == Some(c.z) && i.method == 0 && !i.value.is_zero()).filter_map(|i| i.send_index).collect();
+                }
+                let ch = if r.ok() { charge.unwrap_or_default() } else { TokenAmount::zero() };
+                if let Some(e) = self.pen("PoSt dispute", &before, vm, &r, Some(c.z), &ch) {
                     bad!(e);
                 }
                 if r.ok() {
@@ -759,6 +898,9 @@ impl Scenario for Life {
                 if let Err(e) = all_ok(&r) {
                     bad!(e);
                 }
+                if let Some(e) = self.pen("compaction", &before, vm, &r, None, &TokenAmount::zero()) {
+                    bad!(e);
+                }
                 if r.ok() && n > 0 {
                     accepted_dev = true;
                     outcome = "accepted";
@@ -772,6 +914,12 @@ impl Scenario for Life {
                 if let Err(e) = all_ok(&r) {
                     bad!(e);
                 }
+                if let Some(e) = self.pen("on-boarding", &before, vm, &r, None, &TokenAmount::zero()) {
+                    bad!(e);
+                }
+                if r.ok() && before.st.fee_debt.is_positive() && view(vm, c.m).map(|v| v.st.fee_debt.is_positive()).unwrap_or(false) {
+                    bad!("on-boarding accepted while fee debt stays unpaid".to_string());
+                }
                 if r.ok() {
                     if m.ever.contains(number) {
                         bad!(format!("sector number {number} was committed a second time"));
@@ -784,6 +932,95 @@ impl Scenario for Life {
                     outcome = "rejected";
                 }
             }
+            Act::ReportFault => {
+                let (penalty, _slasher) = consensus_fault_charge(&est_now(vm));
+                vm.set_fault_plan(faults);
+                let r = report_fault(vm, c.z, c.m, now - 1);
+                if let Err(e) = all_ok(&r) {
+                    bad!(e);
+                }
+                if faults.is_empty() {
+                    sites = r.flat().iter().filter(|i| i.from == c.m && i.to_id() == Some(c.z) && i.method == 0 && !i.value.is_zero()).filter_map(|i| i.send_index).collect();
+                }
+                let ch = if r.ok() { penalty } else { TokenAmount::zero() };
+                if std::env::var("MC_DEBUG_RCF").is_ok() {
+                    eprintln!("RCF faults={faults:?} sites={sites:?} charged={ch}\n{}", r.tree());
+                }
+                if let Some(e) = self.pen("consensus fault report", &before, vm, &r, Some(c.z), &ch) {
+                    bad!(e);
+                }
+                if r.ok() {
+                    accepted_dev = true;
+                    outcome = "accepted";
+                } else {
+                    outcome = "rejected";
+                }
+            }
+            Act::RepayDebt => {
+                let r = repay_debt(vm, c.o, c.m, &fil(100));
+                if let Err(e) = all_ok(&r) {
+                    bad!(e);
+                }
+                if let Some(e) = self.pen("debt repayment", &before, vm, &r, None, &TokenAmount::zero()) {
+                    bad!(e);
+                }
+                if r.ok() {
+                    accepted_dev = true;
+                    outcome = if before.st.fee_debt.is_positive() { "repaid" } else { "no debt" };
+                } else {
+                    outcome = "rejected";
+                }
+            }
+            Act::Withdraw => {
+                let r = withdraw(vm, c.o, c.m, &fil(1_000_000));
+                if let Err(e) = all_ok(&r) {
+                    bad!(e);
+                }
+                if let Some(e) = self.pen("withdrawal", &before, vm, &r, None, &TokenAmount::zero()) {
+                    bad!(e);
+                }
+                if r.ok() {
+                    let post = view(vm, c.m).unwrap();
+                    if post.st.fee_debt.is_positive() {
+                        bad!("withdrawal accepted while fee debt stays unpaid".to_string());
+                    }
+                    if !before.st.early_terminations.is_empty() {
+                        bad!("withdrawal accepted while early terminations are unprocessed".to_string());
+                    }
+                    let keep = &post.st.locked_funds + &post.st.pre_commit_deposits + &post.st.initial_pledge;
+                    if post.balance < keep {
+                        bad!(format!("withdrawal left the balance {} below vesting + deposits + pledge {}", post.balance, keep));
+                    }
+                    accepted_dev = true;
+                    outcome = "accepted";
+                } else {
+                    outcome = "rejected";
+                }
+            }
+            Act::AwardPenalty => {
+                let gas_penalty = TokenAmount::from_nano(5);
+                let r = award(vm, c.m, &gas_penalty, &TokenAmount::zero());
+                if let Err(e) = all_ok(&r) {
+                    bad!(e);
+                }
+                // the reward actor charges a multiple of the gas penalty; read what it sent
+                let mut charged = TokenAmount::zero();
+                for i in r.effective() {
+                    if i.to_id() == Some(c.m) && i.method == fil_actor_miner::Method::ApplyRewards as u64
+                        && let Some(p) = i.params.as_ref().and_then(|p| p.deserialize::<fil_actor_miner::ApplyRewardParams>().ok())
+                    {
+                        if p.penalty < gas_penalty {
+                            bad!(format!("block penalty {} smaller than the gas penalty {}", p.penalty, gas_penalty));
+                        }
+                        charged = p.penalty;
+                    }
+                }
+                if let Some(e) = self.pen("block reward with penalty", &before, vm, &r, None, &charged) {
+                    bad!(e);
+                }
+                accepted_dev = true;
+                outcome = if charged.is_positive() { "applied" } else { "not applied" };
+            }
         }
         if accepted_dev {
             m.devs_left -= 1;
@@ -793,6 +1030,7 @@ impl Scenario for Life {
         checkpoint(&m, &format!("after {a:?} at epoch {now}"), &mut viol, &mut known);
         let mut st = Step::new(VS { snap: vm.snapshot(), m }, outcome);
         st.agreed = 1;
+        st.sites = sites;
         st.violation = viol;
         known.sort();
         known.dedup();
@@ -817,4 +1055,3 @@ pub fn sets_all() -> Vec<Vec<u64>> {
     vec![vec![1], vec![2], vec![3], vec![1, 2], vec![1, 3], vec![2, 3], vec![1, 2, 3]]
 }
 
-pub fn unused(_: ExitCode) {}
